@@ -82,6 +82,18 @@ def _get_finders(config=None):
 
 #########################################################
 # Config for GetFromAll
+_getters = {}
+
+
+def _shared_getter(name, getter_class):
+    """
+    Builds each Getter once, so that GetFromAll can group the searches by Getter (as it does by Finder).
+    """
+    if name not in _getters:
+        _getters[name] = getter_class()
+    return _getters[name]
+
+
 def get_getter_for(sid, attribute=None, config=None):
     """
     Configuration used by GetFromAll, to define which Getter is used for a given Sid or Search Sid.
@@ -108,7 +120,7 @@ def get_getter_for(sid, attribute=None, config=None):
     from hamlet_plugins.next_get import NextGetter
 
     attribute_getters = {
-        "next.version": NextGetter()
+        "next.version": _shared_getter("next.version", NextGetter)
         #'comment': get_comment,
         #'size': get_size,
         #'time': get_time,
@@ -130,7 +142,7 @@ def get_getter_for(sid, attribute=None, config=None):
         # 'shot__sequence': GetFromSG(),
         # 'shot__task': GetFromSG(),
         # 'asset__task': GetFromSG(),
-        'default': GetFromPaths()
+        'default': _shared_getter("default", GetFromPaths)
     }
 
     if sid.type in getters_by_type:
